@@ -541,7 +541,7 @@ func run(c *vh.Ctx) {
 			var cacheItems []string
 			for _, id := range histKeys {
 				if s, ok := o.After[id]; ok {
-					cacheItems = append(cacheItems, fmt.Sprintf("(%d, Some (%d, %d, %s))", id, s.Version, s.Suite, vh.Bool(s.EMS)))
+					cacheItems = append(cacheItems, fmt.Sprintf("(%d, Some (%d, %d, %s, %d))", id, s.Version, s.Suite, vh.Bool(s.EMS), s.CreatedAt))
 				} else {
 					cacheItems = append(cacheItems, fmt.Sprintf("(%d, None)", id))
 				}
